@@ -17,11 +17,19 @@ import (
 	clptypes "github.com/Sifchain/sifnode/x/clp/types"
 	disptypes "github.com/Sifchain/sifnode/x/dispensation/types"
 	sdk "github.com/cosmos/cosmos-sdk/types"
+	"github.com/cosmos/cosmos-sdk/version"
+	upgradetypes "github.com/cosmos/cosmos-sdk/x/upgrade/types"
 	abci "github.com/tendermint/tendermint/abci/types"
 	"github.com/tendermint/tendermint/libs/log"
 	tmproto "github.com/tendermint/tendermint/proto/tendermint/types"
 	dbm "github.com/tendermint/tm-db"
 )
+
+// consensus versions of the modules on the released chain (the pinned tree): the module version map
+// a chain "written by the previous binary" has in committed state
+var releasedVersions = map[string]uint64{"dispensation": 2, "clp": 5}
+
+var upgradeSerial int
 
 func openApp(db dbm.DB) *sifapp.SifchainApp {
 	return sifapp.NewSifApp(log.NewNopLogger(), db, nil, true, map[int64]bool{}, sifapp.DefaultNodeHome, 5, sifapp.MakeTestEncodingConfig(), sifapp.EmptyAppOptions{})
@@ -37,6 +45,7 @@ func init() {
 		blocks := 0
 		for blocks < n {
 			db := dbm.NewMemDB()
+			version.Version = "" // the binary that starts the chain
 			app := openApp(db)
 			enc := sifapp.MakeTestEncodingConfig()
 			gs := sifapp.NewDefaultGenesisState(enc.Marshaler)
@@ -75,6 +84,18 @@ func init() {
 			params := app.ClpKeeper.GetRewardsParams(ctx)
 			params.RewardPeriods = rps
 			app.ClpKeeper.SetRewardParams(ctx, params)
+			// software upgrades: 0 none; 1 one upgrade of a chain written by the previous binary; 2 an
+			// upgrade with no version change; 3 two upgrades
+			scenario := rng.Intn(4)
+			if scenario == 1 || scenario == 3 {
+				vm := app.UpgradeKeeper.GetModuleVersionMap(ctx)
+				for mod, v := range releasedVersions {
+					if vm[mod] > v {
+						vm[mod] = v
+					}
+				}
+				app.UpgradeKeeper.SetModuleVersionMap(ctx, vm)
+			}
 			app.EndBlock(abci.RequestEndBlock{Height: h})
 			app.Commit()
 
@@ -94,10 +115,55 @@ func init() {
 			out.Emit("rw.periods "+strings.Join(toks, " "), "ok", "periods", false)
 			out.Emit("rw.init "+app.ClpKeeper.GetBlockDistributionAccu(view()).String(), "ok", "init", false)
 			last := int64(at) + 2
+			// upgrade heights and plan names
+			upgrades := map[int64]string{}
+			if scenario >= 1 {
+				upgradeSerial++
+				u1 := int64(4 + rng.Intn(5))
+				upgrades[u1] = fmt.Sprintf("verif-release-%d-a", upgradeSerial)
+				if scenario == 3 {
+					upgrades[u1+int64(2+rng.Intn(4))] = fmt.Sprintf("verif-release-%d-b", upgradeSerial)
+				}
+			}
+			c0s := counter()
+			c0v, _ := new(big.Int).SetString(c0s, 10)
+			mintedSum := big.NewInt(0)
 			for h = 2; h <= last && blocks < n; h++ {
 				cPrev, supPrev := counter(), sup()
 				holdPrev := new(big.Int).Add(bal(eco), bal(mod))
-				app.BeginBlock(abci.RequestBeginBlock{Header: tmproto.Header{Height: h}})
+				stepTag := "app.beginblock.dispensation.per-block"
+				if name, ok := upgrades[h]; ok {
+					// the node is stopped and the new release is started: its SetupHandlers registers, under its
+					// version name, the handler that runs RunMigrations on the stored version map; the
+					// x/upgrade BeginBlocker applies the plan in this block
+					version.Version = name
+					app = openApp(db)
+					out.Emit(fmt.Sprintf("restart %d", h-1), fmt.Sprintf("c=%s accu=%s", counter(), app.ClpKeeper.GetBlockDistributionAccu(view())), "restart.release", true)
+					stepTag = "app.upgrade.mint-state-preserved"
+				}
+				beginRes := protect(func() string {
+					app.BeginBlock(abci.RequestBeginBlock{Header: tmproto.Header{Height: h}})
+					return "ok"
+				})
+				if beginRes != "ok" {
+					out.Emit(fmt.Sprintf("mint.appbegin %d %s", h, cPrev), "panic", "begin.panic", false)
+					break
+				}
+				if name, ok := upgrades[h]; ok {
+					// the plan must have been applied by the x/upgrade BeginBlocker of this block
+					actx := app.BaseApp.NewContext(false, tmproto.Header{Height: h})
+					if _, pending := app.UpgradeKeeper.GetUpgradePlan(actx); pending || app.UpgradeKeeper.GetDoneHeight(actx, name) != h {
+						panic("harness: upgrade " + name + " was not applied")
+					}
+					out.Hist["upgrade.applied"]++
+				}
+				if name, ok := upgrades[h+2]; ok {
+					// a passed SoftwareUpgradeProposal schedules the plan
+					sctx := app.BaseApp.NewContext(false, tmproto.Header{Height: h})
+					if err := app.UpgradeKeeper.ScheduleUpgrade(sctx, upgradetypes.Plan{Name: name, Height: h + 2}); err != nil {
+						panic(err)
+					}
+				}
 				// the begin blockers have run; look at the deliver state before the end blockers
 				dctx := app.BaseApp.NewContext(false, tmproto.Header{Height: h})
 				cMid := "none"
@@ -108,7 +174,12 @@ func init() {
 				ecoMid := app.BankKeeper.GetBalance(dctx, eco, "rowan").Amount.BigInt()
 				modMid := app.BankKeeper.GetBalance(dctx, mod, "rowan").Amount.BigInt()
 				out.Emit(fmt.Sprintf("mint.appbegin %d %s", h, cPrev), fmt.Sprintf("c=%s sup=%s eco=%s mod=%s", cMid, supMid, ecoMid, modMid), "begin", cMid != cPrev)
-				out.Emit(fmt.Sprintf("chk c20.mintstep tag=app.beginblock.dispensation.per-block %s %s %s %s %s %s %s", per, cPrev, cMid, supPrev, supMid, holdPrev, new(big.Int).Add(ecoMid, modMid)), "true", "chk.mintstep", false)
+				out.Emit(fmt.Sprintf("chk c20.mintstep tag=%s %s %s %s %s %s %s %s", stepTag, per, cPrev, cMid, supPrev, supMid, holdPrev, new(big.Int).Add(ecoMid, modMid)), "true", "chk.mintstep", false)
+				// the programme's running total: counter = initial counter + everything created in the begin blocks, and <= cap
+				mintedSum.Add(mintedSum, new(big.Int).Sub(supMid, supPrev))
+				if c0v != nil && cMid != "none" {
+					out.Emit(fmt.Sprintf("chk c20.minttotal tag=app.mint.counter-is-total-minted-le-cap %s %s %s", c0v, mintedSum, cMid), "true", fmt.Sprintf("chk.minttotal.s%d", scenario), false)
+				}
 				app.EndBlock(abci.RequestEndBlock{Height: h})
 				app.Commit()
 				blocks++
